@@ -38,6 +38,29 @@ Theorem C10_no_padding_when_aligned :
   forall address boundary, 0 < boundary -> address mod boundary = 0 -> align_address address boundary = address.
 Proof. exact align_address_aligned. Qed.
 
+(* what padding consists of: behind code a whole number of copies of the nop encoding (refused with PaddingError exactly when the nop
+   does not fit evenly), behind data zeros; the padded bytes are covered by a block of the kind of the last block *)
+Theorem C10_padding_behind_code_is_whole_nops : forall nop st size b, nop <> [] -> 0 < size -> j_last st = Some b -> ib_code b = true ->
+  (size mod Z.of_nat (length nop) <> 0 -> insert_padding nop st size = Err ValueErr) /\
+  (size mod Z.of_nat (length nop) = 0 ->
+   exists st', insert_padding nop st size = Ok st' /\
+     iv_contents (j_dest st') = iv_contents (j_dest st) ++ concat (repeat nop (Z.to_nat (size / Z.of_nat (length nop)))) /\
+     Z.of_nat (length (iv_contents (j_dest st'))) = Z.of_nat (length (iv_contents (j_dest st))) + size).
+Proof. exact padding_behind_code. Qed.
+Theorem C10_padding_behind_data_is_zeros : forall nop st size, 0 < size ->
+  (match j_last st with Some b => ib_code b = false | None => True end) ->
+  exists st', insert_padding nop st size = Ok st' /\
+    iv_contents (j_dest st') = iv_contents (j_dest st) ++ repeat 0 (Z.to_nat size).
+Proof. exact padding_behind_data. Qed.
+Theorem C10_padding_is_covered_by_a_block : forall nop st size st' b, insert_padding nop st size = Ok st' -> size <> 0 -> j_last st = Some b ->
+  ib_off b + ib_size b < Z.of_nat (length (iv_contents (j_dest st'))) ->
+  exists p, In p (iv_blocks (j_dest st')) /\ ib_off p = ib_off b + ib_size b /\
+            ib_off p + ib_size p = Z.of_nat (length (iv_contents (j_dest st'))) /\ ib_code p = ib_code b.
+Proof. exact padding_is_covered. Qed.
+(* the nop of every ABI (abi_nop, compared with ABI.nop() on every run) is one instruction of the ISA's width *)
+Theorem C10_abi_nops : forall isa, abi_nop isa <> [] /\ (isa >= 2 -> length (abi_nop isa) = 4)%nat /\ (isa < 2 -> length (abi_nop isa) = 1)%nat.
+Proof. exact abi_nops_are_whole_instructions. Qed.
+
 (* the round trip: for every fully initialized interval whose blocks are sorted by offset and start inside it, and whose offset-keyed
    tables have one entry per key, joining the intervals that split_byte_interval made gives the interval back: same address, size,
    bytes and blocks (identities, offsets, sizes, kinds), and every symbolic expression and table entry is found at its old offset.
@@ -62,7 +85,7 @@ Qed.
 Example C10_nonvacuous :
   let iv := mk_ival 4096 6 [1; 2; 3; 4; 5; 6] [mk_iblk 0 0 2 true; mk_iblk 1 2 3 true; mk_iblk 2 5 1 false] [(3, 7)] [[]; []; []] in
   map iv_contents (split_byte_interval iv) = [[1; 2]; [3; 4; 5]; [6]] /\
-  match join_byte_intervals 1 [] 900 (split_byte_interval iv) with
+  match join_byte_intervals [144] [] 900 (split_byte_interval iv) with
   | Ok j => iv_contents j = iv_contents iv /\ map ib_off (iv_blocks j) = [0; 2; 5] /\ dget 3 (iv_symex j) = Some 7
   | Err _ => False
   end.
